@@ -218,8 +218,10 @@ __tzob_zif(echs_tzob_t zob)
 }
 
 
-#define DAISY_UNIX_BASE	(7977U)
-#define DAISY_BASE_YEAR	(1948U)
+/* days from 1900-03-00 to the unix epoch, base year must be = 0 mod 4
+ * and not after the first year we support (1901) */
+#define DAISY_UNIX_BASE	(25509U)
+#define DAISY_BASE_YEAR	(1900U)
 
 static time_t
 __inst_to_epoch(echs_instant_t i)
@@ -239,15 +241,17 @@ __inst_to_epoch(echs_instant_t i)
 		? __mon_yday[i.m] + i.d
 		: 0U;
 
-	return ((((j0 + yd - DAISY_UNIX_BASE) * 24U +
-		  (LIKELY(i.H <= 24U) ? i.H : 24U)) * 60U + i.M) * 60U) + i.S;
+	return (((((time_t)(j0 + yd) - (time_t)DAISY_UNIX_BASE) * 24 +
+		  (LIKELY(i.H <= 24U) ? i.H : 24U)) * 60 + i.M) * 60) + i.S;
 }
 
 static echs_instant_t
 __epoch_to_inst(time_t t)
 {
-	unsigned int d = t / 86400U + DAISY_UNIX_BASE;
-	unsigned int s = t % 86400U;
+	/* floor division, T is negative before 1970 */
+	const time_t td = t / 86400 - (t % 86400 < 0);
+	unsigned int d = (unsigned int)(td + DAISY_UNIX_BASE);
+	unsigned int s = (unsigned int)(t - td * 86400);
 	echs_instant_t ti;
 
 	/* now here's the deal:
